@@ -211,7 +211,18 @@ class Command:
                     else:
                         target.write(
                             "[{}]".format(
-                                ", ".join(['"%s"' % v.strip('"') for v in value])
+                                ", ".join(
+                                    [
+                                        (
+                                            v
+                                            if len(v) > 1
+                                            and v.startswith('"')
+                                            and v.endswith('"')
+                                            else '"%s"' % v.strip('"')
+                                        )
+                                        for v in value
+                                    ]
+                                )
                             )
                         )
                     continue
